@@ -38,9 +38,32 @@ def lex_has(lex, kinds):
         return True
     if lex[0] == 'cat':
         return any(lex_has(p, kinds) for p in lex[1])
+    if lex[0] == 'joined':
+        return lex_has(lex[1], kinds) or any(lex_has(p, kinds) for p in lex[2])
     if lex[0] == 'minus':
         return lex_has(lex[1], kinds)
     return False
+
+
+def lex_depth(lex):
+    if lex[0] == 'cat':
+        return 1 + max([lex_depth(p) for p in lex[1]] or [0])
+    if lex[0] == 'joined':
+        return 1 + max([lex_depth(p) for p in lex[2]] or [0])
+    if lex[0] == 'minus':
+        return lex_depth(lex[1])
+    return 0
+
+
+def widen(lex):
+    """bound the nesting of composite classes (recursive __str__ methods feed their own result back)"""
+    if lex_depth(lex) <= 2:
+        return lex
+    if not no_linebreak(lex):
+        return ('any', 'nested text')
+    if lex_has(lex, ('ambient', 'objrepr')):
+        return ('ambient', 'nested text')
+    return ('noline',)
 
 
 def cat(parts):
@@ -66,12 +89,13 @@ def cat(parts):
         return ('lit', '')
     if len(out) == 1:
         return out[0]
+    out = [widen(p) if p[0] in ('joined', 'cat') else p for p in out]
     if len(out) > _MAX_CAT:
+        if not all(no_linebreak(p) for p in out):
+            return ('any', 'long concatenation')
         if any(lex_has(p, ('ambient', 'objrepr')) for p in out):
             return ('ambient', 'long concatenation')
-        if all(no_linebreak(p) for p in out):
-            return ('noline',)
-        return ('any', 'long concatenation')
+        return ('noline',)
     return ('cat', tuple(out))
 
 
@@ -83,6 +107,8 @@ def no_linebreak(lex):
         return k != 'tok' or lex[1] != 'STRING'
     if k == 'cat':
         return all(no_linebreak(p) for p in lex[1])
+    if k == 'joined':
+        return no_linebreak(lex[1]) and all(no_linebreak(p) for p in lex[2])
     if k == 'minus':
         return no_linebreak(lex[1])
     if k == 're':
@@ -951,20 +977,10 @@ class Flow:
                 strs = [v[1] for v in el if v[0] == 'str']
                 if not strs:
                     return {S(('lit', '')): None}
-                if all(no_linebreak(x) for x in strs) and no_linebreak(lex):
-                    amb = [x for x in strs if lex_has(x, ('ambient', 'objrepr'))]
-                    if amb:
-                        return {S(('ambient', 'join of non-deterministic parts')): None}
-                    # keep precision for a join of simple classes: sep-separated repetition
-                    from .lexclass import regex_of
-                    try:
-                        alts = '|'.join('(?:%s)' % regex_of(x) for x in strs)
-                        return {S(('re', '(?:(?:%s)(?:%s(?:%s))*)?' % (alts, regex_of(lex), alts))): None}
-                    except ValueError:
-                        return {S(('noline',)): None}
-                if any(lex_has(x, ('ambient', 'objrepr')) for x in strs):
+                if all(no_linebreak(x) for x in strs) and no_linebreak(lex) and any(lex_has(x, ('ambient', 'objrepr')) for x in strs):
                     return {S(('ambient', 'join of non-deterministic parts')): None}
-                return {S(('any', 'join of %s' % norm(e.args[0])[:40])): None}
+                strs = sorted({widen(x) for x in strs}, key=str)
+                return {S(('joined', lex, tuple(strs))): None}
             if meth == 'splitlines':
                 return {('lines',): None}
             if meth == 'format':
@@ -1176,10 +1192,10 @@ def _product_cat(parts):
             alts = [('lit', '')]
         if len(res) * len(alts) > 64:
             # too many combinations: collapse
+            if not (all(no_linebreak(a) for a in alts) and all(no_linebreak(x) for r in res for x in r)):
+                return [('any', 'formatted text')]
             if any(lex_has(a, ('ambient', 'objrepr')) for a in alts) or any(lex_has(x, ('ambient', 'objrepr')) for r in res for x in r):
                 return [('ambient', 'formatted text')]
-            if all(no_linebreak(a) for a in alts) and all(no_linebreak(x) for r in res for x in r):
-                return [('noline',)]
-            return [('any', 'formatted text')]
+            return [('noline',)]
         res = [r + [a] for r in res for a in alts]
     return [cat(r) for r in res]
